@@ -88,6 +88,12 @@ def session_calls(case, req_tids, dflt_tid):
     return out
 
 
+def _dict_write(op):
+    return (op[0] == "set" and isinstance(op[4], dict)) or \
+        (op[0] == "update" and any(isinstance(v, dict) for _, v in op[3])) or \
+        (op[0] == "setdefault" and op[4] is not None and isinstance(op[4]["d"], dict))
+
+
 class C19(adjust.Remember, Prop):
     id = "C19"
     corr_module = "Corr.C19Corr"
@@ -224,6 +230,11 @@ class C19(adjust.Remember, Prop):
         if not dedupe:
             overrides = dict(overrides, tasks={"dedupe": False})
         envs = [cc.env_for(rng, sch, p_set=rng.choice([0.2, 0.5]), p_bad=0.0) for _ in range(rng.randint(1, 4))]
+        if any(_dict_write(op) for ops in bodies.values() for op in ops):
+            # dict-valued writes are merged instead of replacing (F-C06a, known): which of the merged-in
+            # settings then carry an environment override depends on load timing -- such sessions run
+            # without environment overrides so that the adjusted judgement stays exact
+            envs = [{}]
         return {"script": spec, "hooks": hooks, "bodies": bodies, "requests": reqs, "dedupe": dedupe,
                 "via_ctx": rng.random() < 0.5, "req_form": rng.choice(["str", "pair", "ctx", "ctx"]),
                 "init": {"defaults": gt.jsonable(cc.instance(rng, sch, p_keep=0.6, same_kind=1.0)),
